@@ -169,12 +169,12 @@ def tar_bytes(members, fmt=tarfile.USTAR_FORMAT, mtime=0):
     return buf.getvalue()
 
 
-def lz4_bytes(data, block_id=4, independent=True, content_checksum=False, content_size=False):
-    """LZ4 frame via the harness encoder (the sandbox has no lz4 CLI)."""
+def lz4_bytes(data, block_id=4, independent=True, content_checksum=False, content_size=False, flush_every=0):
+    """LZ4 frame via the harness encoder.  flush_every > 0: blocks end after that many input bytes (a streaming writer)."""
     from . import common
     exe = common.harness_bin("mk_lz4")
     args = [exe, str(block_id), "1" if independent else "0", "1" if content_checksum else "0",
-            "1" if content_size else "0"]
+            "1" if content_size else "0", str(flush_every)]
     p = subprocess.run(args, input=data, stdout=subprocess.PIPE, stderr=subprocess.PIPE)
     if p.returncode != 0:
         raise common.ToolError("mk_lz4 failed: " + p.stderr.decode(errors="replace"))
